@@ -145,6 +145,7 @@ def gate_grep():
         for i, l in enumerate(txt.split("\n")):
             if pat.search(l):
                 bad.append("%s:%d: %s" % (os.path.relpath(f, COQ), i + 1, l.strip()))
+    gen_coqproject()
     for line in open(os.path.join(COQ, "_CoqProject")):
         if "type-in-type" in line or "impredicative-set" in line:
             bad.append("_CoqProject: " + line.strip())
